@@ -47,6 +47,22 @@ pub struct Trial {
     pub settle_ms: u64,
 }
 
+/// Long scenario: a burst grows the pool, the surplus workers retire after their idle period,
+/// the remaining workers are then occupied by open connections and a new burst arrives.
+fn gen_retire_trial(rng: &mut Rng) -> Trial {
+    let n = *rng.pick(&[1usize, 2, 5, 8]);
+    Trial {
+        n,
+        pattern: rng.below(3),
+        stagger_us: (0..n).map(|_| rng.range(0, 300) as u64).collect(),
+        idle: *rng.pick(&[0usize, 3, 4, 4]),
+        midhead: 0,
+        prev_burst: *rng.pick(&[6usize, 9, 20]),
+        prev_gap_us: 0,
+        settle_ms: 5200 + rng.range(0, 600) as u64,
+    }
+}
+
 fn gen_trial(rng: &mut Rng, thorough: bool) -> Trial {
     let n = *rng.pick(&[2usize, 4, 5, 5, 6, 8, 16, 40]);
     let pattern = rng.below(3);
@@ -86,7 +102,8 @@ pub fn run_trial(ctx: &Ctx, env: &Env, t: &Trial, cs: u64) {
 
     // pre-state
     let mut pre_conns: Vec<Client> = Vec::new();
-    for _ in 0..t.idle {
+    let occupy_after_settle = t.settle_ms >= 5000;
+    for _ in 0..(if occupy_after_settle { 0 } else { t.idle }) {
         if let Ok(c) = Client::connect(&env.addr) {
             pre_conns.push(c);
         }
@@ -118,6 +135,16 @@ pub fn run_trial(ctx: &Ctx, env: &Env, t: &Trial, cs: u64) {
     }
     if t.settle_ms > 0 {
         std::thread::sleep(Duration::from_millis(t.settle_ms));
+    }
+    if occupy_after_settle {
+        // occupy the workers that are left after the retirement with open, idle connections
+        for _ in 0..t.idle {
+            if let Ok(c) = Client::connect(&env.addr) {
+                pre_conns.push(c);
+            }
+            sleep_us(2000);
+        }
+        std::thread::sleep(Duration::from_millis(20));
     }
 
     // the burst
@@ -232,7 +259,7 @@ pub fn run_trial(ctx: &Ctx, env: &Env, t: &Trial, cs: u64) {
                     ),
                     detail: detail(J::obj().set("stalled", J::A(stalled.iter().map(|x| J::u(*x)).collect())).set("closed_in_order", J::A(kicks.iter().map(|x| J::u(*x)).collect()))),
                     case_seed: cs,
-                    mode: "native".into(),
+                    mode: if t.settle_ms >= 5000 { "retire".into() } else { "native".into() },
                 });
             } else {
                 // nothing to attribute the stall to: is the server alive at all?
@@ -256,14 +283,163 @@ pub fn run_trial(ctx: &Ctx, env: &Env, t: &Trial, cs: u64) {
     env.set_app(None);
 }
 
+/// Workload "retire race": a new connection is dispatched at the very moment a surplus worker's
+/// idle period expires, while every other worker is occupied. Many servers in parallel, because
+/// one attempt takes the 5 s of the idle period and the window is only microseconds wide.
+fn run_retire_race(ctx: &Ctx) {
+    let rep = &ctx.rep;
+    // The window (surplus worker's timer fired, worker not yet back under the pool mutex) is a few
+    // microseconds on an idle machine and grows with scheduling latency; the measured hit rate of
+    // this native workload against a seeded "retire without re-checking the queue" change was
+    // 0.1-3 % per attempt depending on machine load, so it is a lottery ticket. The deciding
+    // engine for this race is the Miri scenario `pool_retire_race` (27 of 64 seeds).
+    let nservers = 48usize;
+    let attempts_per_server: usize = (((ctx.budget_ms.saturating_sub(4500)) / 5100) as usize).clamp(1, 40);
+    let cal = CalWindow::open();
+    let mut hs = Vec::new();
+    for si in 0..nservers {
+        let seed = ctx.case_seed(si as u64);
+        hs.push(spawn_named(&format!("rr{}", si), move || {
+            let mut rng = Rng::new(seed);
+            let mut out: Vec<(u64, Option<u64>, bool)> = Vec::new(); // (jitter, latency, answered after kick)
+            let server = match tiny_http::Server::http("127.0.0.1:0") {
+                Ok(s) => Arc::new(s),
+                Err(_) => return out,
+            };
+            let addr = crate::net::Addr::Tcp(server.server_addr().to_ip().unwrap());
+            let stop = Arc::new(std::sync::atomic::AtomicBool::new(false));
+            let (s2, st2) = (server.clone(), stop.clone());
+            let app = spawn_named("rrapp", move || {
+                while !st2.load(std::sync::atomic::Ordering::SeqCst) {
+                    if let Ok(Some(rq)) = s2.recv_timeout(Duration::from_millis(50)) {
+                        let _ = rq.respond(Response::from_string("ok"));
+                    }
+                }
+            });
+            let roundtrip = |c: &mut Client, n: usize, tmo: Duration| -> bool {
+                c.send(b"GET /rr HTTP/1.1\r\nHost: h\r\n\r\n");
+                matches!(c.await_finals(n, &|_| false, tmo), Got::Msg)
+            };
+            // four pinned keep-alive connections occupy four workers, a fifth one the surplus worker
+            let mut pins: Vec<(Client, usize)> = Vec::new();
+            for _ in 0..4 {
+                if let Ok(mut c) = Client::connect(&addr) {
+                    if roundtrip(&mut c, 1, Duration::from_millis(3000)) {
+                        pins.push((c, 1));
+                    }
+                }
+            }
+            let mut floating = match Client::connect(&addr) {
+                Ok(mut c) => {
+                    if !roundtrip(&mut c, 1, Duration::from_millis(3000)) {
+                        return out;
+                    }
+                    Some(c)
+                }
+                Err(_) => return out,
+            };
+            if pins.len() != 4 {
+                return out;
+            }
+            // spread the servers over the idle period so that the precisely timed connects of
+            // different servers do not compete for the CPUs
+            std::thread::sleep(Duration::from_micros(rng.range(0, 4_500_000) as u64));
+            for _ in 0..attempts_per_server {
+                // the surplus worker goes idle now; its timed wait expires 5 s later
+                let t0 = Instant::now();
+                drop(floating.take());
+                let jitter_us = rng.range(0, 450) as u64;
+                let target = Duration::from_micros(5_000_000 + jitter_us);
+                while t0.elapsed() + Duration::from_millis(2) < target {
+                    std::thread::sleep(Duration::from_millis(1));
+                }
+                while t0.elapsed() < target {
+                    std::hint::spin_loop();
+                }
+                let mut c = match Client::connect(&addr) {
+                    Ok(c) => c,
+                    Err(_) => break,
+                };
+                let t1 = Instant::now();
+                if roundtrip(&mut c, 1, Duration::from_millis(1500)) {
+                    out.push((jitter_us, Some(t1.elapsed().as_micros() as u64), false));
+                    floating = Some(c);
+                } else {
+                    // kick: close one of the pinned connections
+                    let (p, _) = pins.pop().unwrap();
+                    drop(p);
+                    let after = matches!(c.await_finals(1, &|_| false, Duration::from_millis(300)), Got::Msg);
+                    out.push((jitter_us, None, after));
+                    // restore the set-up
+                    if let Ok(mut p2) = Client::connect(&addr) {
+                        if roundtrip(&mut p2, 1, Duration::from_millis(3000)) {
+                            pins.push((p2, 1));
+                        }
+                    }
+                    floating = Some(c);
+                    if pins.len() != 4 {
+                        break;
+                    }
+                }
+            }
+            stop.store(true, std::sync::atomic::Ordering::SeqCst);
+            let _ = app.join();
+            out
+        }));
+    }
+    let mut attempts = 0u64;
+    let mut stalled: Vec<(usize, u64, bool)> = Vec::new();
+    for (si, h) in hs.into_iter().enumerate() {
+        if let Ok(v) = h.join() {
+            for (j, lat, after) in v {
+                attempts += 1;
+                rep.eval(Some(&format!("retire-race|j{}", j / 50)));
+                match lat {
+                    Some(l) => rep.counts.max("retire_race_max_latency_us", l),
+                    None => stalled.push((si, j, after)),
+                }
+            }
+        }
+    }
+    rep.counts.add("retire_race_attempts", attempts);
+    rep.inc("workload:retire-race");
+    if !stalled.is_empty() {
+        if !cal.healthy(Duration::from_millis(200)) {
+            rep.inconclusive("retire race: stalled connection but calibrator unhealthy");
+        } else if let Some((si, j, _)) = stalled.iter().find(|x| x.2) {
+            rep.violation(Violation {
+                signature: "C08/served-only-after-other-connection-closed".into(),
+                what: format!(
+                    "a connection opened 5 s (+{} us) after a surplus worker went idle, while the four other workers were occupied, got no response for 1.5 s; it was answered after one of the other connections was closed",
+                    *j as i64
+                ),
+                detail: J::obj()
+                    .set("server_index", J::u(*si))
+                    .set("attempts", J::I(attempts as i64))
+                    .set("stalled", J::A(stalled.iter().map(|x| J::s(format!("server {} jitter {} us answered-after-kick {}", x.0, x.1, x.2))).collect())),
+                case_seed: ctx.case_seed(*si as u64),
+                mode: "retire-race".into(),
+            });
+        } else {
+            rep.inconclusive("retire race: stalled connection, kick did not help");
+        }
+    } else if rep.want_sample() {
+        rep.sample(|| J::obj().set("workload", J::s("retire-race")).set("servers", J::u(nservers)).set("attempts", J::I(attempts as i64)));
+    }
+}
+
 pub fn run(ctx: &Ctx) {
     crate::env::install_fp_hook();
+    if ctx.replay.as_ref().map(|r| r.1 == "retire-race").unwrap_or(false) || (ctx.replay.is_none() && ctx.nshards >= 8 && ctx.shard == ctx.nshards - 3) {
+        run_retire_race(ctx);
+        return;
+    }
     if let Some((cs, _, repeat)) = &ctx.replay {
         crate::env::fp_configure(*cs, &[v::FP_POOL_SPAWN, v::FP_POOL_WORKER_LOOP, v::FP_ACCEPTED], 200, 200);
         for _ in 0..(*repeat).max(1) {
             let env = Env::new(false, 2);
             let mut rng = Rng::new(*cs);
-            let t = gen_trial(&mut rng, ctx.thorough);
+            let t = if ctx.replay.as_ref().map(|r| r.1 == "retire").unwrap_or(false) { gen_retire_trial(&mut rng) } else { gen_trial(&mut rng, ctx.thorough) };
             run_trial(ctx, &env, &t, *cs);
         }
         return;
@@ -284,7 +460,13 @@ pub fn run(ctx: &Ctx) {
         }
         let cs = ctx.case_seed(idx);
         let mut r = Rng::new(cs);
-        let t = gen_trial(&mut r, ctx.thorough);
+        // the last two shards run the long retirement scenario on a fresh server each time
+        let t = if ctx.shard >= ctx.nshards.saturating_sub(2) && ctx.nshards >= 4 {
+            env = Env::new(false, 2);
+            gen_retire_trial(&mut r)
+        } else {
+            gen_trial(&mut r, ctx.thorough)
+        };
         run_trial(ctx, &env, &t, cs);
         idx += 1;
         if ctx.rep.n_violations() >= 5 {
